@@ -31,8 +31,12 @@ static cJSON *t_node(struct t_tree *t, int want_key)
     return n;
 }
 /* node[0] root; node[1], node[2] children (if any); node[3] (or the next free index) the grandchild under the first child */
+static cJSON *t_build_n(struct t_tree *t, int root_key, unsigned nchildren, unsigned ngrand);
 static cJSON *t_build(struct t_tree *t, int root_key)
 {
+#ifdef T_SHAPE_CHILDREN
+    return t_build_n(t, root_key, T_SHAPE_CHILDREN, T_SHAPE_GRAND);
+#else
     cJSON *root, *c1 = NULL, *c2 = NULL, *g = NULL, *g2 = NULL;
     t->count = 0;
     root = t_node(t, root_key);
@@ -42,6 +46,20 @@ static cJSON *t_build(struct t_tree *t, int root_key)
     if (t->nchildren >= 2) { c2 = t_node(t, 1); c1->next = c2; c2->prev = c1; c1->prev = c2; }
     if (t->ngrand >= 1) { g = t_node(t, 1); c1->child = g; g->prev = g; }
     if (t->ngrand >= 2) { g2 = t_node(t, 1); g->next = g2; g2->prev = g; g->prev = g2; }
+    return root;
+#endif
+}
+/* concrete shape (literal arguments): symbolic shapes make every pointer a large case split and symex does not finish (DESIGN 6) */
+static cJSON *t_build_n(struct t_tree *t, int root_key, unsigned nchildren, unsigned ngrand)
+{
+    cJSON *root, *c1 = NULL, *c2 = NULL, *g = NULL, *g2 = NULL;
+    t->count = 0;
+    root = t_node(t, root_key);
+    t->nchildren = nchildren; t->ngrand = ngrand;
+    if (nchildren >= 1) { c1 = t_node(t, 1); root->child = c1; c1->prev = c1; }
+    if (nchildren >= 2) { c2 = t_node(t, 1); c1->next = c2; c2->prev = c1; c1->prev = c2; }
+    if (ngrand >= 1) { g = t_node(t, 1); c1->child = g; g->prev = g; }
+    if (ngrand >= 2) { g2 = t_node(t, 1); g->next = g2; g2->prev = g; g->prev = g2; }
     return root;
 }
 #define OWNS_VS_T(n) (!((n)->type & cJSON_IsReference))
